@@ -29,7 +29,7 @@ Proof. exact split_block_clears_end. Qed.
 Theorem C02_join_blocks_moves_no_label :
   forall s b1 b2 s',
     join_blocks s b1 b2 = Ok (Some s') -> Inv (rcache s) -> b1 <> b2 ->
-    (forall x, abs (rcache s) x <> (Some b1, true)) ->
+    (bsize (the_blk s b1) = 0 -> forall x, abs (rcache s) x <> (Some b1, true)) ->
     Inv (rcache s') /\ map fst (stab (rcache s')) = map fst (stab (rcache s)) /\
     forall x, In x (map fst (stab (rcache s))) -> sym_pos s' x = sym_pos s x.
 Proof. exact join_blocks_keeps_places. Qed.
